@@ -521,6 +521,9 @@ def culprit(src, cfg, orig_outcome, judge=None):
     except BaseException as e:  # noqa: BLE001
         steps = TRACE_LAST_ERROR_STEPS()
         return "format_code", []
+    if steps and steps[0][1] != src:
+        # untraced text normalisation before the first traced stage (str.expandtabs)
+        steps = [("str.expandtabs", src, steps[0][1])] + list(steps)
     last_good = -1
     goods = []
     for i, (name, before, after) in enumerate(steps):
